@@ -812,10 +812,6 @@ namespace ip {
 			}
 			case aux::packet::type_t::ack:
 			{
-				// if the socket just became writeable, we need to notify the
-				// client. First we want to know whether it was not writeable.
-				const bool was_writeable = m_bytes_in_flight + m_mss > m_cwnd;
-
 				auto it = m_outstanding_packet_sizes.find(p.seq_nr);
 				assert(it != m_outstanding_packet_sizes.end());
 				const int acked_bytes = it->second;
@@ -842,7 +838,7 @@ namespace ip {
 
 				const bool is_writeable = m_bytes_in_flight + m_mss <= m_cwnd;
 
-				if (!was_writeable && is_writeable)
+				if (is_writeable)
 					maybe_wakeup_writer();
 
 				return;
